@@ -398,5 +398,29 @@ pub fn case(cx: &mut Cx, rng: &mut Rng) -> R {
         1 => flow_on!(u64),
         _ => flow_on!(f64),
     }
+    // capacities at the maximum of the capacity type (the algorithm uses max() as its "no bottleneck yet" value): an
+    // arborescence, so that any two nodes are joined by at most one path and no flow value can exceed the type
+    if rng.chance(1, 10) {
+        let n = rng.urange(2, 7);
+        let mut t = Abs::new(n, true);
+        t.family = "max_capacity_tree";
+        for v in 1..n {
+            let c = *rng.pick(&[u32::MAX as i64, u32::MAX as i64, u32::MAX as i64 - 1, 3]);
+            t.add(rng.below(v), v, c);
+        }
+        let p = rng.perm(n);
+        let net = t.relabel(&p);
+        cx.log(|| format!("flow input (capacities at u32::MAX): {}", net.describe()));
+        cx.count("flow-family:max_capacity_tree");
+        with_enc!(one, &net, rng, u32, |w| <u32 as Num>::from_i64(w),
+            directed: [GraphU8, GraphShuf, GraphUsize, StableHoles, StableU8],
+            undirected: [GraphU8],
+            |g, ids, tag| {
+                cx.config = format!("{}/u32", tag.name());
+                for _ in 0..3 {
+                    let _ = check_flow(cx, rng, &net, g, ids);
+                }
+            });
+    }
     Ok(())
 }
